@@ -134,3 +134,42 @@ Proof.
   { induction n as [|m IHm]; [reflexivity|]. cbn [repeat rev]. rewrite concat_app, IHm. reflexivity. }
   rewrite E. reflexivity.
 Qed.
+
+(* bounded progress: every internal step brings one chunk one stage nearer to the proxy *)
+Lemma work_app l1 l2 : work (l1 ++ l2) = work l1 + length (concat l1) * length l2 + work l2.
+Proof.
+  induction l1 as [|h l1 IH]; [reflexivity|].
+  cbn [app work concat]. rewrite IH, !app_length. nia.
+Qed.
+
+Lemma move_work s k s' : pstep no_hoarding s (Move k) = Some s' -> S (work (stages s')) = work (stages s).
+Proof.
+  intros H. cbn [pstep] in H.
+  destruct (can_move no_hoarding s k) eqn:Ec; [|discriminate]. unfold can_move in Ec.
+  destruct (nth_error (stages s) k) as [[|c rest]|] eqn:En; try discriminate.
+  destruct (nth_error_split3 _ _ _ En) as (l1 & l2 & El & Lk). subst k.
+  destruct (S (length l1) =? length (stages s)) eqn:Elen.
+  - injection H as <-. change (S (work (set_nth (length l1) rest (stages s))) = work (stages s)). apply Nat.eqb_eq in Elen.
+    assert (l2 = []) by (rewrite El, app_length in Elen; cbn [length] in Elen; destruct l2; [reflexivity|cbn in Elen; lia]). subst l2.
+    rewrite El, set_nth_app. rewrite !work_app. cbn [work length]. lia.
+  - destruct (nth_error (stages s) (S (length l1))) as [nxt|] eqn:En2; [|discriminate]. injection H as <-.
+    change (S (work (set_nth (S (length l1)) (nxt ++ [c]) (set_nth (length l1) rest (stages s)))) = work (stages s)).
+    destruct l2 as [|b l2].
+    { exfalso. rewrite El in En2. rewrite nth_error_app2 in En2 by lia. replace (S (length l1) - length l1) with 1 in En2 by lia. discriminate. }
+    assert (b = nxt). { rewrite El in En2. rewrite nth_error_app2 in En2 by lia. replace (S (length l1) - length l1) with 1 in En2 by lia. cbn in En2. congruence. } subst b.
+    rewrite El. rewrite (set_nth_app l1 (nxt :: l2) (c :: rest) rest). rewrite (set_nth_app_S l1 l2 rest nxt (nxt ++ [c])). rewrite !work_app. cbn [work length]. rewrite app_length. cbn [length]. nia.
+Qed.
+
+Lemma moves_work : forall ls s s', all_moves ls = true -> prun no_hoarding s ls = Some s' ->
+  length ls + work (stages s') = work (stages s).
+Proof.
+  induction ls as [|l ls IH]; intros s s' Ha H; cbn [prun] in H.
+  - injection H as <-. reflexivity.
+  - cbn [all_moves forallb] in Ha. apply andb_true_iff in Ha. destruct Ha as [Hl Ha].
+    destruct l as [c| |k]; try discriminate.
+    destruct (pstep no_hoarding s (Move k)) as [s1|] eqn:E; [|discriminate].
+    pose proof (move_work _ _ _ E). pose proof (IH s1 s' Ha H). cbn [length]. lia.
+Qed.
+
+Lemma work_le l : work l <= length (concat l) * length l.
+Proof. induction l as [|h l IH]; [reflexivity|]. cbn [work concat length]. rewrite app_length. nia. Qed.
